@@ -14,7 +14,7 @@ struct Built { Geom g; int att = -1; int idatt = -1; int aux = -1; };   // aux: 
 
 // geometry with: POSITION int32 x3 (distinct per point), GENERIC int32 x1 point id (to re-identify points after reordering),
 // and the float attribute under test (type `type`, nc components) -- or, when type == POSITION, the float positions themselves.
-static Built build(vrt::Rng &r, bool mesh, GeometryAttribute::Type type, int nc, const std::vector<std::vector<float>> &vals, bool explicit_map, bool float_aux = false) {
+static Built build(vrt::Rng &r, bool mesh, GeometryAttribute::Type type, int nc, const std::vector<std::vector<float>> &vals, bool explicit_map, bool float_aux = false, int pad = 0) {
   Built b;
   const int np = (int)vals.size();
   b.g.is_mesh = mesh;
@@ -29,6 +29,12 @@ static Built build(vrt::Rng &r, bool mesh, GeometryAttribute::Type type, int nc,
     AttDesc p{GeometryAttribute::POSITION, DT_INT32, 3, false, true, np};
     const int pid = add_attribute(pc, p, np);
     for (int i = 0; i < np; ++i) { int32_t xyz[3] = {i % 17, (i / 17) % 17, i / 289}; pc->attribute(pid)->SetAttributeValue(AttributeValueIndex(i), xyz); }
+  }
+  if (pad > 0) {   // an unrelated attribute of many components (kd-tree clouds of 16 or more components in total are coded one tree level lower)
+    AttDesc pd{GeometryAttribute::GENERIC, DT_UINT8, pad, false, true, np};
+    const int pid2 = add_attribute(pc, pd, np);
+    for (int i = 0; i < np; ++i) { uint8_t v[16]; for (int c = 0; c < 16; ++c) v[c] = (uint8_t)((i * 7 + c * 13) % 11); pc->attribute(pid2)->SetAttributeValue(AttributeValueIndex(i), v); }
+    pc->attribute(pid2)->set_unique_id(903);
   }
   AttDesc idd{GeometryAttribute::GENERIC, DT_INT32, 1, false, true, np};
   b.idatt = add_attribute(pc, idd, np);
@@ -323,7 +329,7 @@ static int run_c12(uint64_t seed, long scenarios) {
       const bool extra_type = r.coin(1, 3);
       const GeometryAttribute::Type ty = extra_type ? GeometryAttribute::GENERIC : GeometryAttribute::POSITION;
       if (extra_type && ro.pred != -100 && ro.pred != PREDICTION_NONE && ro.pred != PREDICTION_DIFFERENCE) ro.pred = -100;
-      Built b = build(r, ro.mode >= 2, ty, 3, vals, r.coin(1, 3), extra_type);
+      Built b = build(r, ro.mode >= 2, ty, 3, vals, r.coin(1, 3), extra_type, r.coin(1, 4) ? 12 : 0);
       Encoded e = encode_row(b, ro, q, true, origin, range, 0);
       View vn, vs, vo;
       const int np = (int)vals.size();
